@@ -37,8 +37,8 @@ def c20_overlay(tmpdir):
 
 def _args(tier, seed):
     if tier == "quick":
-        return ["-seed", seed, "-n", 1500, "-big", 1, "-e2e", 6]
-    return ["-seed", seed, "-n", 24000, "-big", 3, "-e2e", 60]
+        return ["-seed", seed, "-n", 640, "-big", 1, "-e2e", 6]
+    return ["-seed", seed, "-n", 12000, "-big", 3, "-e2e", 60]
 
 
 SPEC = dict(
@@ -46,9 +46,9 @@ SPEC = dict(
     extra_overlay=c20_overlay,
     targets=["Properties/C20.vo", "Corr/C20.vo"],
     args=_args,
-    search_args=lambda seed: ["-seed", seed, "-n", 3000, "-big", 0, "-e2e", 0],
-    shard=250,
-    patterns={},
+    search_args=lambda seed: ["-seed", seed, "-n", 1600, "-big", 0, "-e2e", 0],
+    shard=50,
+    patterns={2: "C20-error-noop"},
     rule="TODO",
     trusted_base=[KERNEL, CORR_TB],
     assumptions=[],
